@@ -48,6 +48,11 @@ LEVEL_TEXT += (
     "cell numbers only (index-space typing); MeshLine1._adaptive is "
     "decided by a symbolic run (kept cells, halves, midpoints, child "
     "table).")
+LEVEL_TEXT += (
+    " (R6) the _adaptive* entry points treat the marked set as an array of "
+    "cell indices: no truth-value reduction (np.any, .all(), bare truth "
+    "value, ...) over it or its local aliases, and the mesh is returned "
+    "unrefined only under a test that proves the set empty.")
 LEVEL_NOTE = ("Trusted: numpy hstack/vstack/arange/reshape. The reference "
               "facet is the one opposite... precisely: local facet 2 = "
               "vertices (0, 2), read from RefTri.facets.")
@@ -980,6 +985,163 @@ def _tet_ancestry(model, rep):
                  st.lineno)
 
 
+def _empty_test(test, names) -> bool:
+    """does `test` (taken positively) prove one of `names` empty?
+    Accepted idioms: len(m) == 0, len(m) < 1, not len(m), m.size == 0,
+    not m.size, np.size(m) == 0 - and 'and' chains containing one."""
+    def is_len(e):
+        if isinstance(e, ast.Call) and src(e.func) in ("len", "np.size",
+                                                        "numpy.size") \
+                and len(e.args) == 1 and isinstance(e.args[0], ast.Name) \
+                and e.args[0].id in names:
+            return True
+        return isinstance(e, ast.Attribute) and e.attr == "size" and \
+            isinstance(e.value, ast.Name) and e.value.id in names
+    if isinstance(test, ast.BoolOp) and isinstance(test.op, ast.And):
+        return any(_empty_test(v, names) for v in test.values)
+    if isinstance(test, ast.UnaryOp) and isinstance(test.op, ast.Not):
+        return is_len(test.operand)
+    if isinstance(test, ast.Compare) and len(test.ops) == 1 and \
+            is_len(test.left) and isinstance(test.comparators[0],
+                                            ast.Constant):
+        c = test.comparators[0].value
+        return (isinstance(test.ops[0], ast.Eq) and c == 0) or \
+            (isinstance(test.ops[0], ast.Lt) and c == 1) or \
+            (isinstance(test.ops[0], ast.LtE) and c == 0)
+    return False
+
+
+def _entry_points(model, rep):
+    """The marked set is an array of cell *indices* (Mesh.refined: 'array of
+    element indices'), so cell 0 is a member like any other.  (a) No
+    truth-value reduction (np.any / np.all / .any() / .all() / bool() / bare
+    truth value / count_nonzero / nonzero) over the marked set or a local
+    alias of it in any _adaptive* function.  (b) An _adaptive that returns
+    the mesh itself (or a replace() without new connectivity) does so only
+    under a test that proves the marked set empty."""
+    R6 = "C13-R6"
+    nfun = 0
+    REDUCE = {"any", "all", "count_nonzero", "nonzero", "flatnonzero",
+              "sum", "argwhere"}
+    for fn in model.all_functions():
+        if fn.cls is None or not fn.name.startswith("_adaptive") or \
+                not fn.path.startswith("skfem/mesh/"):
+            continue
+        params = [p for p in fn.params() if p.startswith("marked")
+                  or p == "ix"]
+        if not params:
+            continue
+        nfun += 1
+        q = fn.short()
+        # local aliases: marked = np.unique(marked) / np.array(marked, ...)
+        names = set(params)
+        changed = True
+        while changed:
+            changed = False
+            for n in walk_no_nested(fn.node):
+                if isinstance(n, ast.Assign) and len(n.targets) == 1 and \
+                        isinstance(n.targets[0], ast.Name) and \
+                        n.targets[0].id not in names:
+                    v = n.value
+                    while isinstance(v, ast.Call) and v.args and \
+                            src(v.func) in ("np.unique", "np.array",
+                                            "np.asarray", "np.sort",
+                                            "np.atleast_1d"):
+                        v = v.args[0]
+                    if isinstance(v, ast.Name) and v.id in names:
+                        names.add(n.targets[0].id)
+                        changed = True
+
+        def is_marked(e):
+            return isinstance(e, ast.Name) and e.id in names
+        bad = []
+        for n in walk_no_nested(fn.node):
+            if isinstance(n, ast.Call):
+                f = n.func
+                if isinstance(f, ast.Attribute) and f.attr in REDUCE:
+                    if is_marked(f.value):
+                        bad.append((n, src(n)))
+                    elif src(f.value) in ("np", "numpy") and n.args and \
+                            is_marked(n.args[0]):
+                        bad.append((n, src(n)))
+                elif isinstance(f, ast.Name) and f.id in ("bool", "any",
+                                                          "all", "sum") \
+                        and n.args and is_marked(n.args[0]):
+                    bad.append((n, src(n)))
+            tests = []
+            if isinstance(n, (ast.If, ast.While, ast.IfExp)):
+                tests.append(n.test)
+            if isinstance(n, ast.Assert):
+                tests.append(n.test)
+            for t in tests:
+                stack = [t]
+                while stack:
+                    e = stack.pop()
+                    if isinstance(e, ast.BoolOp):
+                        stack += e.values
+                    elif isinstance(e, ast.UnaryOp) and isinstance(
+                            e.op, ast.Not):
+                        stack.append(e.operand)
+                    elif is_marked(e):
+                        bad.append((e, f"truth value of '{e.id}'"))
+        cons = f"{q}:index-set"
+        if bad:
+            n0, what = bad[0]
+            rep.fail(R6, fn.path, q, cons,
+                     f"'{what}' reduces the marked set as if it were a "
+                     f"mask: it holds cell indices, so the set {{0}} (only "
+                     f"cell 0 marked) counts as empty", n0.lineno)
+        else:
+            rep.ok(R6, cons, f"no truth-value reduction over "
+                             f"{sorted(names)} (cell indices)")
+        if fn.name != "_adaptive":
+            continue
+        # (b) returns
+        parent = {}
+        for p_ in ast.walk(fn.node):
+            for c in ast.iter_child_nodes(p_):
+                parent[id(c)] = p_
+        selfal = {"self"}
+        for n in walk_no_nested(fn.node):
+            if isinstance(n, ast.Return):
+                v = n.value
+                unref = None
+                if v is None or (isinstance(v, ast.Constant)
+                                 and v.value is None):
+                    unref = "nothing"
+                elif isinstance(v, ast.Name) and v.id in selfal:
+                    unref = "the mesh itself"
+                elif isinstance(v, ast.Call) and src(v.func) in (
+                        "replace", "dataclasses.replace") and not any(
+                        k.arg == "t" for k in v.keywords):
+                    unref = "a copy with the old connectivity"
+                cons = f"{q}:return@{src(v)[:40] if v is not None else ''}"
+                if unref is None:
+                    rep.ok(R6, cons, "returns a mesh built from the "
+                                     "refinement")
+                    continue
+                proved = False
+                c, p_ = n, parent.get(id(n))
+                while p_ is not None and p_ is not fn.node:
+                    if isinstance(p_, ast.If) and c in p_.body and \
+                            _empty_test(p_.test, names):
+                        proved = True
+                    c, p_ = p_, parent.get(id(p_))
+                if proved:
+                    rep.ok(R6, cons, f"returns {unref} only when the "
+                                     f"marked set is empty")
+                else:
+                    rep.fail(R6, fn.path, q, cons,
+                             f"returns {unref} under a condition that does "
+                             f"not prove the marked set empty (accepted: "
+                             f"len(marked) == 0, marked.size == 0, not "
+                             f"len(marked)): a marked cell may stay "
+                             f"unrefined", n.lineno)
+    if nfun < 6:
+        raise AnalysisError(f"only {nfun} _adaptive* functions with a "
+                            f"marked set found, 6 confirmed by hand")
+
+
 def run(model: Model, rep, tier: str) -> None:
     rep.rule("C13-R1", "template masks disjoint and exhaustive over the "
              "patterns the closure invariant allows; closure loop "
@@ -993,7 +1155,11 @@ def run(model: Model, rep, tier: str) -> None:
     rep.rule("C13-R5", "fill values of padded child tables are removed by "
              "value before index sets become subdomains; ancestors of "
              "bisected tetrahedra are inherited")
-    staged(lambda: _templates(model, rep), lambda: _line(model, rep),
+    rep.rule("C13-R6", "entry points treat the marked set as cell indices: "
+             "no truth-value reduction over it, unrefined return only for "
+             "a provably empty set")
+    staged(lambda: _entry_points(model, rep),
+           lambda: _templates(model, rep), lambda: _line(model, rep),
            lambda: _sentinel_tables(model, rep),
            lambda: _tet_ancestry(model, rep))
     n = tag_rule(model, rep, "C13-R4",
@@ -1010,6 +1176,17 @@ _LI = "skfem/mesh/mesh_line_1.py"
 _TE = "skfem/mesh/mesh_tet_1.py"
 _SETD = "np.setdiff1d(np.unique(new_t[:, ixs]), [-1])"
 MUTANTS = [
+    ("triangle refinement returns early for a 'falsy' marked set",
+     (_TR, "    def _adaptive(self, marked):\n\n        sorted_mesh = replace(",
+      "    def _adaptive(self, marked):\n\n        if not np.any(marked):\n"
+      "            return self\n\n        sorted_mesh = replace("), "C13-R6"),
+    ("tetrahedral work-list loop tests the indices' truth value",
+     (_TE, "        while len(marked) > 0:", "        while marked.any():"),
+     "C13-R6"),
+    ("line refinement returns itself for a short marked set",
+     (_LI, "    def _adaptive(self, marked):\n",
+      "    def _adaptive(self, marked):\n        if len(marked) < 2:\n"
+      "            return self\n"), "C13-R6"),
     ("line: midpoints numbered from max(t) + 1 again",
      (_LI, "        mid = np.arange(len(marked)) + p.shape[1]",
       "        mid = np.arange(len(marked)) + np.max(t) + 1"), "C13-R2"),
@@ -1099,6 +1276,10 @@ MUTANTS = [
       "            t=t[:, :nt],\n"), "C13-R4"),
 ]
 TWINS = [
+    ("triangle refinement returns itself for an empty marked set",
+     (_TR, "    def _adaptive(self, marked):\n\n        sorted_mesh = replace(",
+      "    def _adaptive(self, marked):\n\n        if len(marked) == 0:\n"
+      "            return self\n\n        sorted_mesh = replace(")),
     ("line subdomain map filters the fill with a comparison",
      (_LI, "                name: " + _SETD,
       "                name: np.unique(new_t[:, ixs][new_t[:, ixs] != -1])")),
